@@ -48,10 +48,10 @@ Section P.
   Definition add_data (st : lstate) (ps : list particle) : lstate :=
     {| plist := plist st; data := (data st ++ ps)%list; counts := counts st; cut := cut st |}.
 
-  Lemma rl_rows fmt attrs : forall rows n rest st,
+  Lemma rl_rows first fmt attrs : forall rows n rest st,
     Forall (wf_row fmt attrs) rows ->
-    RL fmt attrs (List.length rows + n) (rows ++ rest)%list st
-    = RL fmt attrs n rest (add_data st (parse_rows fmt attrs rows)).
+    RL first fmt attrs (List.length rows + n) (rows ++ rest)%list st
+    = RL first fmt attrs n rest (add_data st (parse_rows fmt attrs rows)).
   Proof.
     induction rows as [|r rows IH]; intros n rest st H.
     - cbn [List.length Nat.add app parse_rows]. unfold add_data. rewrite app_nil_r. destruct st; reflexivity.
@@ -64,17 +64,17 @@ Section P.
   Definition add_events (st : lstate) (evs : list (list particle)) : lstate :=
     {| plist := (plist st ++ evs)%list; data := []; counts := counts st; cut := cut st |}.
 
-  Lemma close_none st :
-    close_event None st = Ok (add_events st [data st]).
+  Lemma close_none first st :
+    close_event None first st = Ok (add_events st [data st]).
   Proof.
     unfold close_event, add_events. cbn [bind].
     destruct (List.length (data st)) as [|k] eqn:E; cbn; reflexivity.
   Qed.
 
-  Lemma rl_events fmt attrs : forall evs i n rest st,
+  Lemma rl_events first fmt attrs : forall evs i n rest st,
     wf_events fmt attrs i evs -> data st = [] ->
-    RL fmt attrs (List.length (render_events evs) + n) (render_events evs ++ rest)%list st
-    = RL fmt attrs n rest (add_events st (map (fun e => parse_rows fmt attrs (e_rows e)) evs)).
+    RL first fmt attrs (List.length (render_events evs) + n) (render_events evs ++ rest)%list st
+    = RL first fmt attrs n rest (add_events st (map (fun e => parse_rows fmt attrs (e_rows e)) evs)).
   Proof.
     induction evs as [|e evs IH]; intros i n rest st H Hd.
     - cbn. unfold add_events. rewrite app_nil_r. destruct st; cbn in *; subst; reflexivity.
@@ -83,7 +83,7 @@ Section P.
       unfold render_events. cbn [flat_map]. fold (render_events evs).
       unfold render_event. rewrite <- !app_comm_cons, <- !app_assoc.
       cbn [List.length]. rewrite !app_length. cbn [List.length].
-      match goal with |- read_loop _ _ _ _ _ _ ?k _ _ = _ =>
+      match goal with |- read_loop _ _ _ _ _ _ _ ?k _ _ = _ =>
         replace k with (S (List.length (e_rows e) + (S (List.length (render_events evs) + n))))%nat by lia end.
       cbn [read_loop app]. rewrite Hhk.
       rewrite rl_rows by exact Hrows.
@@ -164,7 +164,7 @@ Section P.
     rewrite String.eqb_refl. cbn [andb]. rewrite Hlt, Hti. cbn [bind]. rewrite to_Z_zq.
     (* header scan *)
     cbn [app scan]. rewrite Hs1, Hs2, Hs3.
-    rewrite (scan_events fmt attrs (d_events d) 0 Hev). cbn [bind fst snd num_skip num_read].
+    rewrite (scan_events fmt attrs (d_events d) 0 Hev). cbn [bind fst snd num_skip num_read sel_first sel_counts].
     destruct (counts_from 0 (d_events d)) eqn:Ec.
     { destruct (d_events d); [congruence|discriminate]. }
     rewrite <- Ec. cbn [bind]. rewrite read_all_lines. rewrite Nat2Z.id.
@@ -179,7 +179,7 @@ Section P.
     (* read loop *)
     fold (render_events evs).
     change (e_head e0 :: (e_rows e0 ++ [e_foot e0]) ++ render_events evs)%list with (render_events (e0 :: evs)).
-    pose proof (rl_events fmt attrs (e0 :: evs) 0 0 []
+    pose proof (rl_events 0%Z fmt attrs (e0 :: evs) 0 0 []
                  {| plist := []; data := []; counts := counts_from 0 (e0 :: evs); cut := 0 |} Hev eq_refl) as Hrl.
     rewrite Nat.add_0_r, app_nil_r in Hrl.
     change (S (List.length ((e_rows e0 ++ [e_foot e0]) ++ render_events evs)))%list
